@@ -2,5 +2,5 @@ From UV Require Import Lib.Base Model.Idna Model.Wtf8.
 Require Extraction.
 Require Import ExtrOcamlBasic.
 Extraction Language OCaml.
-Extraction "m_c18_idna.ml" utf8_decode1 utf8_decode1_fixed idna_toascii idna_toascii_label_b written
+Extraction "m_c18_idna.ml" utf8_decode1 idna_toascii idna_toascii_label_b written
   wtf8_length_as_utf16 wtf8_to_utf16 utf16_length_as_wtf8 utf16_to_wtf8.
